@@ -28,7 +28,9 @@ class C12(core.Check):
         out = []
         for _ in range(n):
             s = engcorr.gen_session(rng, allow_two=False, tfs=('1m', '3m', '5m', '15m', '1h'), max_n=240,
-                                    vol=rng.choice([2, 4]), gap_prob=rng.choice([0.0, 0.2]), lengths=[60, 120, 180, 240],
+                                    vol=rng.choice([2, 4]), gap_prob=rng.choice([0.0, 0.2]),
+                                    # also lengths that leave an unfinished trading candle (and a shorter last chunk) at the end
+                                    lengths=[60, 120, 180, 240, 64, 127, 187, 233],
                                     isolated=False)
             out.append(s)
         return out
